@@ -13,10 +13,14 @@ import (
 	"flag"
 	"fmt"
 	"io"
+	"math"
+	"reflect"
 	"net/http"
 	"os"
 	"runtime/debug"
 	"sync"
+	"sync/atomic"
+	"time"
 
 	"github.com/benoitkugler/webrender/backend"
 	"github.com/benoitkugler/webrender/logger"
@@ -140,6 +144,55 @@ func runSpec(spec *Spec) *Result {
 	return res
 }
 
+// sanitizeFloats replaces NaN and +-Inf in every float field reachable from v by +-1e300
+// (JSON cannot carry them) and returns the paths of the fields it changed.
+func sanitizeFloats(v reflect.Value, path string, out []string) []string {
+	switch v.Kind() {
+	case reflect.Ptr, reflect.Interface:
+		if !v.IsNil() {
+			out = sanitizeFloats(v.Elem(), path, out)
+		}
+	case reflect.Struct:
+		for i := 0; i < v.NumField(); i++ {
+			if v.Type().Field(i).PkgPath == "" { // exported
+				out = sanitizeFloats(v.Field(i), path+"."+v.Type().Field(i).Name, out)
+			}
+		}
+	case reflect.Slice, reflect.Array:
+		for i := 0; i < v.Len(); i++ {
+			out = sanitizeFloats(v.Index(i), fmt.Sprintf("%s[%d]", path, i), out)
+		}
+	case reflect.Map:
+		if v.Type().Elem().Kind() == reflect.Float64 || v.Type().Elem().Kind() == reflect.Float32 {
+			for _, k := range v.MapKeys() {
+				f := v.MapIndex(k).Float()
+				if math.IsNaN(f) || math.IsInf(f, 0) {
+					v.SetMapIndex(k, reflect.ValueOf(clampFloat(f)).Convert(v.Type().Elem()))
+					out = append(out, fmt.Sprintf("%s[%v]", path, k))
+				}
+			}
+		}
+	case reflect.Float32, reflect.Float64:
+		if f := v.Float(); (math.IsNaN(f) || math.IsInf(f, 0)) && v.CanSet() {
+			v.SetFloat(clampFloat(f))
+			if len(out) < 20 {
+				out = append(out, fmt.Sprintf("%s=%v", path, f))
+			}
+		}
+	}
+	return out
+}
+
+func clampFloat(f float64) float64 {
+	switch {
+	case math.IsInf(f, 1):
+		return 1e300
+	case math.IsInf(f, -1):
+		return -1e300
+	}
+	return -1e301 // NaN
+}
+
 func main() {
 	flag.StringVar(&corpusDir, "corpus", "/verif/corpus", "corpus directory")
 	flag.IntVar(&nSites, "nsites", 8192, "number of instrumentation sites")
@@ -151,6 +204,21 @@ func main() {
 
 	in := bufio.NewReaderSize(os.Stdin, 1<<20)
 	out := bufio.NewWriter(os.Stdout)
+	// heartbeat: while a run is in progress, one "HB <steps>" line per second. A run whose
+	// step counter stops moving is blocked (a goroutine parked on a lock or channel the
+	// simulator does not own makes no step); the supervisor need not wait for its watchdog.
+	var outMu sync.Mutex
+	var running int32
+	go func() {
+		for range time.Tick(time.Second) {
+			if atomic.LoadInt32(&running) == 1 {
+				outMu.Lock()
+				fmt.Fprintf(out, "HB %d\n", simrt.Steps())
+				out.Flush()
+				outMu.Unlock()
+			}
+		}
+	}()
 	for {
 		line, err := in.ReadBytes('\n')
 		if len(line) > 1 {
@@ -159,14 +227,29 @@ func main() {
 				fmt.Fprintf(out, "BADSPEC %v\n", jerr)
 				out.Flush()
 			} else {
+				outMu.Lock()
 				fmt.Fprintf(out, "BEGIN %s\n", spec.ID)
 				out.Flush()
+				outMu.Unlock()
+				atomic.StoreInt32(&running, 1)
 				res := runSpec(&spec)
-				b, _ := json.Marshal(res)
+				atomic.StoreInt32(&running, 0)
+				b, merr := json.Marshal(res)
+				if merr != nil {
+					// non-finite numbers (a page geometry of +Inf ...) cannot be encoded: clamp them
+					// and say where they were
+					res.NonFinite = sanitizeFloats(reflect.ValueOf(res), "result", nil)
+					b, merr = json.Marshal(res)
+				}
+				if merr != nil {
+					b, _ = json.Marshal(&Result{ID: spec.ID, Unregistered: 0, NonFinite: []string{"result not serialisable: " + merr.Error()}})
+				}
+				outMu.Lock()
 				out.WriteString("RESULT ")
 				out.Write(b)
 				out.WriteString("\n")
 				out.Flush()
+				outMu.Unlock()
 			}
 		}
 		if err != nil {
